@@ -89,7 +89,12 @@ func (k *Keeper) NewEVM(
 			}
 
 			metadata := contract.GetMetadata()
-			contracts = append(contracts, corevm.NewCustomPrecompiledContract(common.BytesToAddress(metadata.Address), methods, metadata.Name))
+			precompiledContract := corevm.NewCustomPrecompiledContract(common.BytesToAddress(metadata.Address), methods, metadata.Name)
+			if cpc, ok := precompiledContract.(*corevm.CustomPrecompiledContract); ok {
+				// a contract marked disabled stays wired (its address remains reserved) but refuses execution
+				precompiledContract = cpc.WithDisabled(metadata.Disabled)
+			}
+			contracts = append(contracts, precompiledContract)
 		}
 		evm = evm.WithCustomPrecompiledContracts(contracts...)
 	}
